@@ -15,7 +15,7 @@ callback ever created, `{unsubscribed, lastUpdate, executionMutex}` plus its eve
 Threads (any number, each with an arbitrary remaining script of writes / subscriptions /
 unsubscriptions) follow the code:
 
-* writer (`Compute`/`Apply`/`Replace`): ⟨U⟩; ⟨V⟩; {compute; if it notifies: state := new; id := ++uid;
+* writer (`Compute`/`Apply`/`Replace`): {`Apply` with empty mutations returns at once, no lock taken (`Obj.early`)}; ⟨U⟩; ⟨V⟩; {compute; if it notifies: state := new; id := ++uid;
   snapshot := Values()}; release V; for cb in snapshot: `LockExecution(id)` = ⟨cb.E⟩ then
   {if `cb.unsubscribed ∨ (id ≠ 0 ∧ id = cb.lastUpdate)`: release E, skip; else `cb.lastUpdate := id`},
   `Invoke` (enter … exit), `UnlockExecution`; release U.
@@ -55,6 +55,8 @@ structure Obj (S N : Type) where
   upd : S → WOp → Upd S N
   ini : S → Bool → Option N
   s0 : S
+  /-- the call returns before it takes any lock (`Set.Apply` with empty mutations) -/
+  early : WOp → Bool := fun _ => false
 
 /-- A history entry: state before, note, state after. -/
 structure Entry (S N : Type) where
@@ -118,7 +120,9 @@ def step (o : Obj S N) (sh : Sh S N) (t : Th o.WOp N) : List (Sh S N × Th o.WOp
   | .idle =>
     match t.script with
     | [] => []
-    | .write w :: rest => if sh.ulock then [] else [({ sh with ulock := true }, { pc := .wU w, script := rest })]
+    | .write w :: rest =>
+      if o.early w then [(sh, { pc := .idle, script := rest })]     -- `if mutations.IsEmpty() { return … }`, no lock taken
+      else if sh.ulock then [] else [({ sh with ulock := true }, { pc := .wU w, script := rest })]
     | .sub flag :: rest => if sh.vlock then [] else [({ sh with vlock := true }, { pc := .sV flag, script := rest })]
     | .unsub c :: rest =>
       if c < sh.ncb then [({ sh with listed := sh.listed.filter (· != c) }, { pc := .uRm c, script := rest })] else []
